@@ -1334,7 +1334,7 @@ class _AlwaysSortable(object):
         self.value = value
 
     def sortable_value(self):
-        return (str(type(self)), id(self))
+        return (str(type(self.value)), id(self.value))
 
     def __lt__(self, other):
         try:
